@@ -12,10 +12,13 @@ theorem TInv.of {p p' : P} (h : TInv p) (hle : GB.le p.gb p'.gb) (hl : LibsInv p
     (hsub : ∀ c, c < p'.cats.length → 0 < subCount p'.cats c)
     (hsc : ∀ sc ∈ p'.schemas, sc.cat < p'.cats.length) (hst : MapBelow p'.staticTypes p'.schemas.length)
     (hmaps : ∀ pr ∈ p'.processes, ∀ m ∈ pr.maps, m.lib < p'.libs.all.length)
-    (hcnt : ∀ c ∈ p'.counters, c.process < p'.processes.length)
-    (hvis : AllBelow p'.visible p'.threads.length) (hsel : AllBelow p'.selected p'.threads.length) : TInv p' :=
+    (hcnt : ∀ c ∈ p'.counters, ∃ pr, p'.processes[c.process]? = some pr ∧ pr.pid = c.pid)
+    (hvis : AllBelow p'.visible p'.threads.length) (hsel : AllBelow p'.selected p'.threads.length)
+    (hkeq : p'.kmaps = p.kmaps := by rfl) (hall : p.libs.all.length ≤ p'.libs.all.length := by exact Nat.le_refl _) :
+    TInv p' :=
   ⟨hl, hg, fun t ht => (hth t ht).elim (fun ho => (h.threads t ho).mono hle) id, hsub,
-   Nat.lt_of_lt_of_le h.catsPos hle.2.2.1, hsc, hst, hmaps, hcnt, hvis, hsel⟩
+   Nat.lt_of_lt_of_le h.catsPos hle.2.2.1, hsc, hst, hmaps, hcnt, hvis, hsel,
+   fun m hm => Nat.lt_of_lt_of_le (h.kmaps m (hkeq ▸ hm)) hall⟩
 
 /-! ### thread-local updates -/
 
@@ -279,8 +282,8 @@ theorem P.markerTypeOf_spec (p : P) (h : TInv p) (ty : MType) (p1 : P) (hh : Nat
             simp only [List.length_append, List.length_cons, List.length_nil]
             omega
 
-theorem P.marker_TInv (p : P) (h : TInv p) (t : Nat) (ty : MType) (name : Nat) (strs : List Nat) :
-    TInv (p.marker t ty name strs).1 ∧ (p.marker t ty name strs).2 ≠ .bug := by
+theorem P.marker_TInv (p : P) (h : TInv p) (t : Nat) (ty : MType) (name : Nat) (strs : List Nat) (tm : MTiming) :
+    TInv (p.marker t ty name strs tm).1 ∧ (p.marker t ty name strs tm).2 ≠ .bug := by
   unfold P.marker
   cases hmt : p.markerTypeOf ty with
   | none => exact ⟨h, by simp⟩
@@ -302,7 +305,7 @@ theorem P.marker_TInv (p : P) (h : TInv p) (t : Nat) (ty : MType) (name : Nat) (
             (th.strings.forGlobal name nameStr).1 th.stacks.prefixes.length p1.cats.length
             p1.gstrings.strings.length p1.schemas
             (a8.mono h1.2.2 (Nat.le_refl _) (Nat.le_refl _) (fun _ _ h => h) (Nat.le_refl _)) h1.1 h1.2.1
-            hsc (hp1.schemaCats schema (List.mem_of_getElem? hsc)) hv.1 (Decidable.of_not_not hlen)
+            hsc (hp1.schemaCats schema (List.mem_of_getElem? hsc)) hv.1 (Decidable.of_not_not hlen) tm
         simp only [e]
         refine ⟨hp1.setThread t _ ?_, by simp⟩
         have hnn := Nat.le_trans h1.2.2 hn'
@@ -333,15 +336,18 @@ theorem GB.le_of_eq {a b : GB} (h : a = b) : GB.le a b := h ▸ GB.le_refl a
 
 theorem ThreadInv.new (g : GB) (proc : Nat) (tid : IdStr) (start : Nat) (main : Bool) (hp : proc < g.nProcs) :
     ThreadInv g { process := proc, tid := tid, start := start, isMain := main } := by
-  refine ⟨⟨fun _ hx => (nomatch hx), fun _ hx => (nomatch hx)⟩, ?_, ?_, ?_, fun _ hx => (nomatch hx),
+  refine ⟨⟨⟨fun _ hx => (nomatch hx), fun _ hx => (nomatch hx)⟩, fun _ hx => (nomatch hx)⟩, ?_, ?_, ?_,
+    fun _ hx => (nomatch hx),
     (by intro s hs; cases hs), (by intro hz; cases hz), ?_, hp, (by intro st hst; cases hst)⟩
   · exact ⟨⟨rfl, rfl, rfl, rfl, fun _ hx => (nomatch hx), fun _ hx => (nomatch hx), fun _ hx => (nomatch hx)⟩,
-      ⟨rfl, fun _ hx => (nomatch hx), fun _ hx => (nomatch hx), fun _ hx => (nomatch hx)⟩,
+      ⟨rfl, fun _ hx => (nomatch hx), fun _ hx => (nomatch hx), fun _ hx => (nomatch hx), fun _ hx => (nomatch hx)⟩,
       rfl, rfl, rfl, rfl, rfl, rfl, rfl, rfl, fun _ hx => (nomatch hx), fun _ hx => (nomatch hx),
-      fun _ hx => (nomatch hx), List.nodup_nil⟩
-  · exact ⟨rfl, rfl, rfl, fun _ hx => (nomatch hx), fun _ hx => (nomatch hx), fun _ hx => (nomatch hx)⟩
+      fun _ hx => (nomatch hx), List.nodup_nil,
+      ⟨by intro j fk hj; simp at hj, by intro i k hk; simp at hk⟩⟩
+  · exact ⟨rfl, rfl, rfl, fun _ hx => (nomatch hx), fun _ hx => (nomatch hx), fun _ hx => (nomatch hx),
+      fun _ hx => (nomatch hx), by intro j l a hl; simp at hl⟩
   · exact ⟨rfl, fun _ hx => (nomatch hx), (by intro i q hq; simp at hq), fun _ hx => (nomatch hx), StCanon.empty⟩
-  · exact ⟨rfl, rfl, rfl, rfl, fun _ hx => (nomatch hx), fun _ hx => (nomatch hx), fun _ hx => (nomatch hx),
+  · exact ⟨rfl, rfl, rfl, ⟨rfl, rfl, rfl⟩, fun _ hx => (nomatch hx), fun _ hx => (nomatch hx), fun _ hx => (nomatch hx),
       ⟨rfl, rfl⟩⟩
 
 theorem mappingAdd_libs (maps : List Mapping) (m : Mapping) (maps' : List Mapping)
@@ -373,8 +379,8 @@ theorem step_TInv (p : P) (h : TInv p) (op : Op) (hv : handlesValid p op = true)
       · exact h.maps pr hpr m hm
       · cases hm
     · intro c hc
-      simp only [List.length_append, List.length_cons, List.length_nil]
-      exact Nat.lt_succ_of_lt (h.counters c hc)
+      obtain ⟨pr, hpr, hpid⟩ := h.counters c hc
+      exact ⟨pr, by rw [List.getElem?_append_left (List.getElem?_eq_some_iff.mp hpr).1]; exact hpr, hpid⟩
   | addThread proc tid start main =>
     simp only [handlesValid, decide_eq_true_eq] at hv
     simp only [step, List.getElem?_eq_getElem hv]
@@ -388,9 +394,7 @@ theorem step_TInv (p : P) (h : TInv p) (op : Op) (hv : handlesValid p op = true)
       rcases List.mem_or_eq_of_mem_set hpr with hpr | rfl
       · exact h.maps pr hpr m hm
       · exact h.maps _ (List.getElem_mem hv) m hm
-    · intro c hc
-      simp only [List.length_set]
-      exact h.counters c hc
+    · exact counters_set h.counters (List.getElem?_eq_getElem hv) rfl
     · intro x hx
       simp only [List.length_append, List.length_cons, List.length_nil]
       exact Nat.lt_succ_of_lt (h.visible x hx)
@@ -427,7 +431,7 @@ theorem step_TInv (p : P) (h : TInv p) (op : Op) (hv : handlesValid p op = true)
       rcases List.mem_or_eq_of_mem_set hpr with hpr | rfl
       · exact h.maps pr hpr m hm
       · exact h.maps _ (List.getElem_mem hv) m hm
-    · intro c hc; simp only [List.length_set]; exact h.counters c hc
+    · exact counters_set h.counters (List.getElem?_eq_getElem hv) rfl
   | setPStart pi start =>
     simp only [handlesValid, decide_eq_true_eq] at hv
     simp only [step, List.getElem?_eq_getElem hv]
@@ -437,7 +441,7 @@ theorem step_TInv (p : P) (h : TInv p) (op : Op) (hv : handlesValid p op = true)
       rcases List.mem_or_eq_of_mem_set hpr with hpr | rfl
       · exact h.maps pr hpr m hm
       · exact h.maps _ (List.getElem_mem hv) m hm
-    · intro c hc; simp only [List.length_set]; exact h.counters c hc
+    · exact counters_set h.counters (List.getElem?_eq_getElem hv) rfl
   | addLib name =>
     simp only [step]
     have h1 := p.libs.handleFor_spec name h.libs
@@ -461,7 +465,44 @@ theorem step_TInv (p : P) (h : TInv p) (op : Op) (hv : handlesValid p op = true)
         · rcases mappingAdd_libs _ _ _ hm m hmm with rfl | hold
           · exact hv.2
           · exact h.maps _ (List.getElem_mem hv.1) m hold
-      · intro c hc; simp only [List.length_set]; exact h.counters c hc
+      · exact counters_set h.counters (List.getElem?_eq_getElem hv.1) rfl
+  | addKernelMapping lib start end_ rel =>
+    simp only [handlesValid, decide_eq_true_eq] at hv
+    simp only [step, hv, if_true]
+    cases hm : mappingAdd p.kmaps ⟨start, end_, rel, lib⟩ with
+    | none => exact h
+    | some maps' =>
+      simp only
+      refine ⟨h.libs, h.gstr, h.threads, h.subsPos, h.catsPos, h.schemaCats, h.statics, h.maps, h.counters,
+        h.visible, h.selected, ?_⟩
+      intro m hmm
+      rcases mappingAdd_libs _ _ _ hm m hmm with rfl | hold
+      · exact hv
+      · exact h.kmaps m hold
+  | removeKernelMapping start =>
+    simp only [step]
+    exact ⟨h.libs, h.gstr, h.threads, h.subsPos, h.catsPos, h.schemaCats, h.statics, h.maps, h.counters,
+      h.visible, h.selected, fun m hm => h.kmaps m (List.mem_filter.mp hm).1⟩
+  | removeMapping pi start =>
+    simp only [handlesValid, decide_eq_true_eq] at hv
+    simp only [step, List.getElem?_eq_getElem hv]
+    refine h.of (GB.le_of_eq (by simp [P.gb])) h.libs h.gstr (fun t ht => Or.inl ht) h.subsPos h.schemaCats
+      h.statics ?_ ?_ h.visible h.selected
+    · intro pr hpr m hm
+      rcases List.mem_or_eq_of_mem_set hpr with hpr | rfl
+      · exact h.maps pr hpr m hm
+      · exact h.maps _ (List.getElem_mem hv) m (List.mem_filter.mp hm).1
+    · exact counters_set h.counters (List.getElem?_eq_getElem hv) rfl
+  | clearMappings pi =>
+    simp only [handlesValid, decide_eq_true_eq] at hv
+    simp only [step, List.getElem?_eq_getElem hv]
+    refine h.of (GB.le_of_eq (by simp [P.gb])) h.libs h.gstr (fun t ht => Or.inl ht) h.subsPos h.schemaCats
+      h.statics ?_ ?_ h.visible h.selected
+    · intro pr hpr m hm
+      rcases List.mem_or_eq_of_mem_set hpr with hpr | rfl
+      · exact h.maps pr hpr m hm
+      · cases hm
+    · exact counters_set h.counters (List.getElem?_eq_getElem hv) rfl
   | string s =>
     simp only [step]
     have h1 := p.gstrings.indexFor_spec s h.gstr
@@ -565,9 +606,9 @@ theorem step_TInv (p : P) (h : TInv p) (op : Op) (hv : handlesValid p op = true)
       · exact h.schemaCats sc hsc
       · exact hv
     · exact h.statics.mono (by simp)
-  | marker t ty name strs =>
+  | marker t ty name strs tm =>
     simp only [step]
-    exact (p.marker_TInv h t ty name strs).1
+    exact (p.marker_TInv h t ty name strs tm).1
   | markerStack t m stack =>
     simp only [handlesValid, Bool.and_eq_true, decide_eq_true_eq] at hv
     simp only [step]
@@ -581,7 +622,7 @@ theorem step_TInv (p : P) (h : TInv p) (op : Op) (hv : handlesValid p op = true)
     simp only [List.mem_append, List.mem_singleton] at hc
     rcases hc with hc | rfl
     · exact h.counters c hc
-    · exact hv
+    · exact ⟨_, List.getElem?_eq_getElem hv, rfl⟩
   | counterSample c =>
     simp only [handlesValid, decide_eq_true_eq] at hv
     simp only [step, List.getElem?_eq_getElem hv]
